@@ -24,6 +24,8 @@ type Server struct {
 	WaitCount                  int
 	SyncBinlog, FlushLog       int
 	SettingsWriter             string // caller that last wrote sync_binlog / innodb_flush_log_at_trx_commit
+	SyncBinlogWriter           string // caller that last wrote sync_binlog
+	FlushLogWriter             string // caller that last wrote innodb_flush_log_at_trx_commit
 	NoSemiSyncPlugin           bool   // semisync_status answers 1193
 	FSReadOnly                 bool   // the data directory's filesystem is read-only: nothing can be committed
 
@@ -342,7 +344,7 @@ func (w *World) restartLocked(host string) {
 	s.ReadOnly, s.SuperRO, s.Offline = true, true, true
 	s.SSMaster, s.SSSlave, s.SSReg = false, false, false
 	s.WaitCount = 1
-	s.SyncBinlog, s.FlushLog, s.SettingsWriter = 1, 1, ""
+	s.SyncBinlog, s.FlushLog, s.SettingsWriter, s.SyncBinlogWriter, s.FlushLogWriter = 1, 1, "", "", ""
 	s.Started = time.Now()
 	if s.Source != "" {
 		s.IORun, s.SQLRun = true, true // replication threads auto-start
